@@ -150,7 +150,12 @@ func (prophet *Prophet) transitivity(peer bpv7.EndpointID) {
 func (prophet *Prophet) sendMetadata(destination bpv7.EndpointID) {
 	prophet.dataMutex.RLock()
 	source := prophet.c.NodeId
-	metadataBlock := bpv7.NewProphetBlock(prophet.predictabilities)
+	// the block gets its own copy: the live map keeps changing while the bundle is serialised
+	predictabilities := make(map[bpv7.EndpointID]float64, len(prophet.predictabilities))
+	for peer, pred := range prophet.predictabilities {
+		predictabilities[peer] = pred
+	}
+	metadataBlock := bpv7.NewProphetBlock(predictabilities)
 	prophet.dataMutex.RUnlock()
 
 	err := sendMetadataBundle(prophet.c, source, destination, metadataBlock)
